@@ -10,26 +10,24 @@ import (
 	"github.com/thanos-community/promql-engine/zzverif/sym"
 )
 
-// quick tier: results that cannot be changed by the order in which partitions are
-// merged; the float sums / extrema of several partial results (slow solver queries,
-// equal only up to the sign of zero) are in the thorough tier
+// every second shape (even index) is also run with three series in the thorough tier
 var verifDistQueries = []string{
 	`count(foo)`,
-	`foo`,
-	`min(foo) by (b)`,
 	`group(foo)`,
-	`count(foo) + 1`,
+	`foo`,
 	`count by (b) (foo)`,
-	`avg(foo)`,
+	`min(foo) by (b)`,
 	`stddev(foo)`,
-	`quantile(0.5, foo)`,
+	`avg(foo)`,
 	`count without (b) (foo)`,
-	`min without (a) (foo)`,
+	`quantile(0.5, foo)`,
 	`group without (a, b) (foo)`,
-	`sum by (b) (foo)`,
+	`min without (a) (foo)`,
 	`max by (a) (foo)`,
-	`-max(foo)`,
+	`sum by (b) (foo)`,
+	`count(foo) + 1`,
 	`sum(foo)`,
+	`-max(foo)`,
 }
 
 // verifSameMatrix asserts that two range results are the same set of series and points.
@@ -73,7 +71,8 @@ func verifSameMatrix(site string, a, b *promql.Result, knownID string, region bo
 // VerifH10p: a query through the distributed engine over disjoint partitions returns
 // what one engine returns over the union (whole pipeline on both sides, symbolic data).
 func VerifH10p() {
-	qs := verifDistQueries[sym.Choice("query", sym.Tier(12, len(verifDistQueries)))]
+	qi := sym.Choice("query", len(verifDistQueries))
+	qs := verifDistQueries[qi]
 	start := sym.Int64("start", 0, verifR)
 	step := sym.Int64("step", 1, verifR)
 	lookback := sym.Int64("lookback", 1, verifR)
@@ -87,13 +86,18 @@ func VerifH10p() {
 	var union []*stub.Series
 	zombie := false
 	parts := [][]*stub.Series{nil, nil}
-	lbls = lbls[:sym.Tier(2, 3)]
+	// quick: two series; thorough: three series for every second query shape
+	if sym.Tier(0, 1) == 0 || qi%2 == 1 {
+		lbls = lbls[:2]
+	}
 	for k, l := range lbls {
 		n := 1
 		s := stub.SymSeries("s"+stub.Itoa(k), n, verifR)
-		if qs == `avg(foo)` || qs == `stddev(foo)` {
-			// order-sensitive float algorithms: pin the sample values (timestamps stay
-			// symbolic) so that both sides are compared on exact numbers
+		if qs == `avg(foo)` || qs == `stddev(foo)` || (qs == `sum(foo)` && len(lbls) == 3) {
+			// order-sensitive float algorithms (and a sum of three members, which the
+			// distributed plan re-associates): pin the sample values (timestamps stay
+			// symbolic) so that both sides are compared on exact numbers; the symbolic
+			// values are compared over the reals by H10r
 			s[0].V = float64(k+1) * 1.5
 		}
 		// D16 region for this series: selected at step 0, expired at step 1 centrally,
